@@ -30,6 +30,11 @@ CHECKS = {
   text="Lean 4 theorems over the executable selector model, for all address widths, ranges, ports and protocols: is_subset coincides with inclusion of the denoted packet sets (non-empty selectors); range->network->range round trip for every prefix block and port, the supernet loop bounded by the address width; the responder's policy lookup returns selectors contained in an offered pair and in the policy or refuses (TS_UNACCEPTABLE) exactly when no policy matches; rekey selectors must equal the replaced SA's; mode must match; an initiator never installs a widened response. Model validated differentially against TrafficSelector and IkeSa._get_ipsec_configuration exhaustively over a small universe and on random IPv4/IPv6 ranges.",
   note="Trusted: Lean kernel, extract/, ipaddress ordering/supernet semantics. Kernel selectors are exact only for prefix-aligned ranges (everything from_network produces); a foreign non-aligned range is widened to the enclosing prefix (observation N3).",
   technique="Lean 4 proof (interval arithmetic with omega, packet-set semantics) + exhaustive differential correspondence", ref="DESIGN.md §5 C12"),
+ 'C13': dict(
+  text="Lean 4 theorems over the timer functions of the shell model, for every tick sequence and every handler instance: the transmissions made by the retransmission timer plus those already counted never exceed the built-in maximum and each is the stored request (induction over the tick list); deadlines back off by n x 2 s (gaps 2, 4, 6, 8 s never decrease), first deadline 2 s after sending; budget exhausted and deadline passed => DELETED with nothing sent; outside the nine request-outstanding states the timer does nothing (an answered request is never retransmitted); a DPD probe is generated exactly when ESTABLISHED and nothing authentic arrived for the interval, every accepted message re-arms it; lifetime decisions (delete past the hard deadline, else rekey past the rekey time, only when ESTABLISHED). Tied to the code by per-iteration replay. Oracle on the real code under a virtual clock: 11 request kinds (incl. COOKIE and INVALID_KE_PAYLOAD retries on IKE_SA_INIT, CREATE_CHILD_SA and IKE rekey) x subsets of lost transmissions x tick grains: byte-identical copies, count <= built-in, schedule 2/4/6 s, silence after an answer, removal with kernel SAs after the budget; DPD time; rekey at lifetime + jitter in [0,5], hard expiry 30 s later; peer crash after every step => all kernel SAs gone within DPD interval + budget.",
+  note="Trusted: Lean kernel; shell model validated by replay; virtual clock in units of 1/1024 s (exact in binary floating point). That the stored request is the one last sent after a retry is handler behaviour: checked by the oracle (one defect found and repaired), not proved. Real select() timing, sockets and the wall clock are outside the model (partial).",
+  technique="Lean 4 proof (induction over tick sequences, arithmetic by omega) + per-iteration replay correspondence + virtual-clock oracle over request kinds x loss subsets x grains", ref="DESIGN.md §5 C13"),
+
  'C14': dict(
   text="Lean 4 theorems: every ctypes structure of xfrm.py/netlink.py, laid out by the ctypes algorithm (natural alignment, little-endian host, explicit big-endian fields) from the `_fields_` tables regenerated from the source on every run, has exactly the offsets, sizes, byte order and total size of its <linux/xfrm.h>/<linux/netlink.h> counterpart (kernel evaluation over the complete table; xfrm_algo with its fixed 64-octet key tail treated explicitly); the record codec round-trips for every field list and all in-range values whatever follows (so the kernel reads what the daemon wrote and vice versa); ports are network order; message types, flags, attribute codes and the argument-to-field data flow of create_sa/create_policy/delete_sa/flush equal the kernel's/intended ones (`decide` over extracted tables); error replies fail and acks succeed. The executable request builders and event/reply parsers are validated byte-for-byte against the real Xfrm.* (socket replaced by a recorder), requests are decoded with layouts printed by a C program compiled against the kernel headers on every run, and events encoded with them are parsed by the real code.",
   note="Trusted: Lean kernel, extract/ (gen_layouts.py), Spec/Uapi.lean (regenerated from gcc + kernel headers and compared on every run when gcc is present), x86-64 ABI. That each builder puts the intended parameter into the intended field for all parameter values is established by the extracted data-flow table plus the byte-exact correspondence and the UAPI decoder oracle on generated requests, not by a closed Lean theorem per request (string-keyed layouts do not reduce in the kernel).",
